@@ -188,6 +188,10 @@ type mapEntry struct {
 type Map struct {
 	head *mapEntry
 	id   uint64
+	// delTok carries the edge "a deletion synchronizes before a read that
+	// observes the absence" (the documented guarantee covers every read that
+	// observes a write's effect, also the effect of a Delete)
+	delTok uint64
 }
 
 func (m *Map) sp(kind byte) { rt.SyncPoint(kind, int(uintptr(unsafe.Pointer(m))&0xffff)) }
@@ -219,6 +223,7 @@ func (m *Map) push(e *mapEntry) {
 
 //go:norace
 func (m *Map) unlink(x *mapEntry) {
+	rt.ReleaseMerge(unsafe.Pointer(&m.delTok))
 	x.dead = true
 	if m.head == x {
 		m.head = x.next
@@ -243,6 +248,7 @@ func (m *Map) load(key any) (any, bool) {
 		rt.Acquire(unsafe.Pointer(&e.tok))
 		return e.v, true
 	}
+	rt.Acquire(unsafe.Pointer(&m.delTok))
 	return nil, false
 }
 
@@ -368,6 +374,7 @@ func (m *Map) Clear() {
 
 //go:norace
 func (m *Map) clear() {
+	rt.ReleaseMerge(unsafe.Pointer(&m.delTok))
 	for e := m.head; e != nil; e = e.next {
 		e.dead = true
 	}
